@@ -1065,7 +1065,7 @@ def _is_subseq(small: list, big: list, nat_is_big: bool) -> bool:
     return True
 
 
-def _merge_same_name(nat: list, spec: dict) -> list:
+def _merge_same_name(nat: list, spec: dict, inner_native: bool = False) -> list:
     """Explanatory alternative: the wrapper takes the decorated function's name and adjacent frames with the
     same (file, name) collapse into the deeper one."""
     renamed = []
@@ -1081,7 +1081,9 @@ def _merge_same_name(nat: list, spec: dict) -> list:
         # (only for functions compiled at file level: a @pyscript_compile function defined inside a function is
         # native the first time its enclosing function runs and interpreted afterwards - ast_functiondef rewrites
         # the decorator list of the AST node - so its frames can be the interpreter's)
-        native = _role(fr, spec) == "compiled_function"
+        # (``inner_native`` = the variant for the first run of the enclosing function, while it still is native)
+        native = _role(fr, spec) in (("compiled_function", "inner_compiled_function") if inner_native
+                                     else ("compiled_function",))
         if out and out[-1][0] == fr[0] and out[-1][1] == fr[1] and not (native and out_native[-1]):
             out[-1] = fr
             out_native[-1] = native
@@ -1208,8 +1210,8 @@ def compare_frames(nat: list, pys: list, spec: dict, section: str) -> dict | Non
             base = changed
         if not applicable:
             continue
-        for use_merged in (False, True):
-            ref = _merge_same_name(base, spec) if use_merged else base
+        for use_merged in (False, True, "inner_native"):
+            ref = _merge_same_name(base, spec, use_merged == "inner_native") if use_merged else base
             if use_merged and ref == base:
                 continue
             for relax_first, relax_modfile in ((False, False), (section != "main", False), (False, True)):
